@@ -773,3 +773,67 @@ class Peg(object):
             if best is None or e > best[1]:
                 best = (i, e)
         return best if best else (None, None)
+
+
+# ---------------------------------------------------------------- token use in parse actions
+
+def token_use(grammar):
+    """For every lambda parse action that indexes its token list with integer constants: the set of indices each branch
+    of the action uses (conditions on the way included).  A constructor fed from `toks[0], toks[1]` must use every
+    token the element yields exactly where it belongs; an index used twice while another is skipped means one field
+    got the wrong token.  Yields (node, [(branch text, sorted indices)], max index)."""
+    out = []
+    seen = set()
+    roots = [v for v in grammar.env.values() if isinstance(v, GNode)]
+    for fam in [v for v in grammar.env.values() if isinstance(v, Family)]:
+        roots.extend(x for x in fam.cache.values() if isinstance(x, GNode))
+    todo = []
+    seen_nodes = set()
+    for r_ in roots:
+        for n_ in walk(r_):
+            if n_.id not in seen_nodes:
+                seen_nodes.add(n_.id)
+                todo.append(n_)
+    for node in todo:
+        act = node.action
+        if not isinstance(act, Closure) or id(act) in seen:
+            continue
+        seen.add(id(act))
+        rets = action_returns(act)
+        if not rets:
+            continue
+        body = rets[0]
+
+        def idx(e):
+            s = set()
+            for x in ast.walk(e):
+                if isinstance(x, ast.Subscript) and isinstance(x.value, ast.Name) and x.value.id == 'toks' \
+                        and isinstance(x.slice, ast.Constant) and isinstance(x.slice.value, int) and x.slice.value >= 0:
+                    s.add(x.slice.value)
+            return s
+
+        branches = []
+
+        def visit(e, inherited):
+            if isinstance(e, ast.List) and len(e.elts) == 1:
+                return visit(e.elts[0], inherited)
+            if isinstance(e, ast.IfExp):
+                optional = any(isinstance(c, ast.Call) and norm(c.func) == 'len' for c in ast.walk(e.test))
+                cond = idx(e.test)
+                if optional:
+                    # a token that may be absent: both arms are judged as one branch using what the longer arm uses
+                    branches.append((norm(e)[:70], sorted(inherited | idx(e))))
+                    return
+                visit(e.body, inherited | cond)
+                visit(e.orelse, inherited | cond)
+                return
+            # an optional-token conditional nested as an argument
+            branches.append((norm(e)[:70], sorted(inherited | idx(e))))
+
+        visit(body, set())
+        allidx = idx(body)
+        multi = any(isinstance(c, ast.Call) and sum(1 for a in list(c.args) + [k.value for k in c.keywords] if idx(a)) >= 2
+                    for c in ast.walk(body))
+        if len(allidx) >= 2 or (allidx and max(allidx) >= 1) or multi:
+            out.append((node, branches, max(allidx)))
+    return out
